@@ -1,4 +1,211 @@
-import GcmpyModel.Model.MessagePassing
+import GcmpyModel.Lemmas.MessagePassing
+/-!
+# C17 — message passing on a motif cover: range, monotonicity, `φ = 0`, structure
+
+Model: `GcmpyModel/Model/MessagePassing.lean` (`theoretical`, `sweep`, `newMessage`, … over `Rat`), modelling
+`gcmpy/message_passing/message_passing.py`.  Helper lemmas and vocabulary: `GcmpyModel/Lemmas/MessagePassing.lean`.
+
+Vocabulary (defined in the lemma file):
+* `LabelsOk net`   : every label's own edge list is a simple graph and both end points of a labelled network edge
+                     are vertices of that edge list;
+* `InUnit H`       : all stored messages lie in `[0,1]`;
+* `HLe H' H`       : same key list, pointwise `≤`;
+* `Consistent net` : every network edge is an edge of its motif, `lab.verts` = vertices of `lab.edges`, every motif
+                     edge is a network edge with that label, equal ids ⇒ equal labels;
+* `ShareAtMostOne net` : two distinct motifs share at most one vertex.
+
+Proved here: `message_is_expectation`, `range`, `monotone`, `zero_at_zero`, `theoretical_formula`,
+`fixed_point_stable`, `history_independent`, `neighbour_product_is_other_motifs`.
+NOT proved (statement kept as a `def … : Prop`): `converges_full`.
+-/
 namespace Gcmpy.MessagePassing
-theorem placeholder_c17 : True := trivial
+open Gcmpy Gcmpy.Graph Gcmpy.Automated
+
+/-- **Each update is an exact expectation.**  (`message_is_expectation` of the lemma file, restated for an
+update actually performed by a sweep on a network with well-formed labels.) -/
+theorem sweep_update_is_expectation {net : Net} (h : LabelsOk net) (φ : Rat) (H : HMap Rat)
+    {e : Nat × Nat × Label} (he : e ∈ net.edges) :
+    newMessage net φ H e.1 e.2.2 =
+        Automated.exactE ⟨motifNodes e.2.2.edges, e.2.2.edges⟩ φ
+          (fun j => prodOver net H j ((neighbours net j).filter fun l => l ∉ e.2.2.verts) [] 1) e.1 ∧
+    newMessage net φ H e.2.1 e.2.2 =
+        Automated.exactE ⟨motifNodes e.2.2.edges, e.2.2.edges⟩ φ
+          (fun j => prodOver net H j ((neighbours net j).filter fun l => l ∉ e.2.2.verts) [] 1) e.2.1 :=
+  ⟨message_is_expectation net φ H (h e he).1 (h e he).2.1,
+   message_is_expectation net φ H (h e he).1 (h e he).2.2⟩
+
+/-- **Formula.**  Unfolding of `theoretical` on a non-empty vertex list: `1 - (Σ_i Π_{motifs of i} H[(i,id)]) / N`
+on the table reached after `it` sweeps from the uniform start `1/2`. -/
+theorem theoretical_formula {net : Net} (hN : net.nodes ≠ []) (it : Nat) (φ : Rat) :
+    theoretical net it φ =
+      some (1 - outerSum net (sweeps net φ it (initH net (1/2))) / (net.nodes.length : Rat)) := by
+  unfold theoretical finalH
+  rw [if_neg]
+  simpa using hN
+
+/-- **Range.**  For every occupation probability in `[0,1]` and EVERY number of sweeps the value returned by
+`theoretical` is a number in `[0,1]`. -/
+theorem range {net : Net} {φ : Rat} (h : LabelsOk net) (h0 : 0 ≤ φ) (h1 : φ ≤ 1) (hN : net.nodes ≠ [])
+    (iterations : Nat) : ∃ v, theoretical net iterations φ = some v ∧ 0 ≤ v ∧ v ≤ 1 := by
+  refine ⟨_, theoretical_formula hN iterations φ, ?_, ?_⟩
+  all_goals
+    have hb := outerSum_bounds net (inUnit_sweeps h h0 h1 iterations (inUnit_init net))
+    have hpos := length_pos_rat hN
+  · have : outerSum net (sweeps net φ iterations (initH net (1/2))) / (net.nodes.length : Rat) ≤ 1 :=
+      (div_le_one hpos).2 hb.2
+    linarith
+  · have : 0 ≤ outerSum net (sweeps net φ iterations (initH net (1/2))) / (net.nodes.length : Rat) :=
+      div_nonneg hb.1 hpos.le
+    linarith
+
+/-- the messages themselves stay in `[0,1]` for every number of sweeps -/
+theorem messages_in_unit {net : Net} {φ : Rat} (h : LabelsOk net) (h0 : 0 ≤ φ) (h1 : φ ≤ 1) (iterations : Nat) :
+    InUnit (finalH net iterations φ (1/2)) :=
+  inUnit_sweeps h h0 h1 iterations (inUnit_init net)
+
+/-- the messages are pointwise smaller at the larger occupation probability, for every number of sweeps -/
+theorem messages_antitone {net : Net} {φ φ' : Rat} (h : LabelsOk net) (h0 : 0 ≤ φ) (hle : φ ≤ φ')
+    (h1 : φ' ≤ 1) (iterations : Nat) :
+    HLe (finalH net iterations φ' (1/2)) (finalH net iterations φ (1/2)) :=
+  (rel_sweeps h h0 hle h1 iterations (rel_refl (inUnit_init net))).1
+
+/-- **Monotone.**  For EVERY number of sweeps `theoretical` is non-decreasing in the occupation probability. -/
+theorem monotone {net : Net} {φ φ' : Rat} (h : LabelsOk net) (h0 : 0 ≤ φ) (hle : φ ≤ φ') (h1 : φ' ≤ 1)
+    (hN : net.nodes ≠ []) (iterations : Nat) :
+    ∃ v v', theoretical net iterations φ = some v ∧ theoretical net iterations φ' = some v' ∧ v ≤ v' := by
+  refine ⟨_, _, theoretical_formula hN iterations φ, theoretical_formula hN iterations φ', ?_⟩
+  have hr := rel_sweeps h h0 hle h1 iterations (rel_refl (inUnit_init net))
+  have hS := outerSum_mono net hr
+  have hpos := length_pos_rat hN
+  have := div_le_div_of_nonneg_right hS hpos.le
+  linarith
+
+/-- **Zero at zero.**  With no occupied edge and at least one sweep the giant-component fraction is exactly `0`.
+(The consistency hypothesis of the design is not needed: `LabelsOk` is enough, because `outerSum` only reads the
+keys `(end point, id)` of labelled network edges and a sweep rewrites each of them to `1`.) -/
+theorem zero_at_zero {net : Net} (h : LabelsOk net) (hN : net.nodes ≠ []) {iterations : Nat}
+    (hi : 1 ≤ iterations) : theoretical net iterations 0 = some 0 := by
+  rw [theoretical_formula hN, outerSum_of_ones net (fun k hk => sweeps_zero_ones h hi _ k hk),
+    div_self (length_pos_rat hN).ne', sub_self]
+
+/-- the form asked for in the design (with the unused consistency hypothesis) -/
+theorem zero_at_zero_consistent {net : Net} (_hc : Consistent net) (h : LabelsOk net) (hN : net.nodes ≠ [])
+    {iterations : Nat} (hi : 1 ≤ iterations) : theoretical net iterations 0 = some 0 :=
+  zero_at_zero h hN hi
+
+/-- after at least one sweep at `φ = 0` every message that `outerSum` reads is `1` -/
+theorem messages_at_zero {net : Net} (h : LabelsOk net) {iterations : Nat} (hi : 1 ≤ iterations)
+    {e : Nat × Nat × Label} (he : e ∈ net.edges) :
+    readH (finalH net iterations (0 : Rat) (1/2)) (e.1, e.2.2.id) = 1 ∧
+    readH (finalH net iterations (0 : Rat) (1/2)) (e.2.1, e.2.2.id) = 1 := by
+  unfold finalH
+  exact ⟨sweeps_zero_ones h hi _ _ ⟨e, he, Or.inl rfl⟩, sweeps_zero_ones h hi _ _ ⟨e, he, Or.inr rfl⟩⟩
+
+/-! ### structure -/
+
+/-- a table fixed by one sweep is fixed by any number of sweeps -/
+theorem fixed_point_stable {net : Net} {φ : Rat} {H : HMap Rat} (hfix : sweep net φ H = H) :
+    ∀ n, sweeps net φ n H = H := by
+  intro n
+  induction n with
+  | zero => rfl
+  | succ n ih => rw [sweeps, hfix, ih]
+
+/-- **History independence.**  `theoretical` is a function of `(net, iterations, φ)` only: the answer to a query
+does not depend on the queries made before it.  (Trivial for the pure model.  That the Python *object* — which
+keeps `_H_tau`, `_phi` and the evaluator caches between calls — behaves like this function is carried by the
+correspondence harness, and by `Properties/C15Cache.lean` for the evaluator caches.) -/
+theorem history_independent (net : Net) (iterations : Nat) (before : List Rat) (φ : Rat) :
+    ((before ++ [φ]).map (theoretical net iterations)).getLast? = some (theoretical net iterations φ) := by
+  simp
+
+/-- a batch of queries can be answered in any order -/
+theorem history_independent_perm (net : Net) (iterations : Nat) {qs qs' : List Rat} (hp : qs.Perm qs') :
+    (qs.map fun φ => (φ, theoretical net iterations φ)).Perm
+      (qs'.map fun φ => (φ, theoretical net iterations φ)) :=
+  hp.map _
+
+/-- **The neighbour product ranges over the other motifs of `j`.**  On a consistent network whose motifs
+pairwise share at most one vertex, for a member `j` of the motif of the network edge `e`, the product
+`calculate_H_tau` forms from `j`'s neighbours outside the motif is `∏ H[(j, id)]` over the ids of the motifs
+containing `j` other than this one (`mem_motifIdsAt`: `id ∈ motifIdsAt net j ↔ ∃ e' ∈ net.edges,
+j ∈ e'.2.2.verts ∧ e'.2.2.id = id`). -/
+theorem neighbour_product_is_other_motifs {net : Net} (hc : Consistent net) (h : LabelsOk net)
+    (hd : ShareAtMostOne net) (H : HMap Rat) {e : Nat × Nat × Label} (he : e ∈ net.edges) {j : Nat}
+    (hj : j ∈ e.2.2.verts) :
+    prodOver net H j ((neighbours net j).filter fun l => l ∉ e.2.2.verts) [] 1
+      = ∏ id ∈ (motifIdsAt net j).toFinset.erase e.2.2.id, readH H (j, id) :=
+  prodOver_other_motifs hc h hd H he hj
+
+/-! ### not proved -/
+
+/-- NOT PROVED (analysis, outside the scope of the model-level proofs): the iterate after `iterations` sweeps
+(25 by default in the repository) is within `ε` of a table fixed by `sweep`.  No rate of convergence is known
+for the Gauss–Seidel iteration in general (at the percolation threshold it is arbitrarily slow), so this is
+listed as an open statement only; over `Rat` a fixed point need not even exist (it is in general algebraic). -/
+def converges_full : Prop :=
+  ∀ (net : Net) (φ ε : Rat), LabelsOk net → Consistent net → ShareAtMostOne net → 0 ≤ φ → φ ≤ 1 → 0 < ε →
+    ∃ Hstar : HMap Rat, sweep net φ Hstar = Hstar ∧
+      ∀ k, |readH (finalH net 25 φ (1/2)) k - readH Hstar k| ≤ ε
+
+/-! ### examples (kernel-checked evaluations) -/
+
+def triA : Label := ⟨[0, 1, 2], [(0, 1), (1, 2), (0, 2)], 0⟩
+def triB : Label := ⟨[2, 3, 4], [(2, 3), (3, 4), (2, 4)], 1⟩
+/-- two triangles sharing the vertex `2` -/
+def bowtie : Net :=
+  ⟨[0, 1, 2, 3, 4], [(0, 1, triA), (1, 2, triA), (0, 2, triA), (2, 3, triB), (3, 4, triB), (2, 4, triB)]⟩
+
+/-- a 4-cycle covered by its four edges (2-cliques) -/
+def ring4 : Net :=
+  ⟨[0, 1, 2, 3], [(0, 1, ⟨[0, 1], [(0, 1)], 0⟩), (1, 2, ⟨[1, 2], [(1, 2)], 1⟩),
+                  (2, 3, ⟨[2, 3], [(2, 3)], 2⟩), (3, 0, ⟨[3, 0], [(3, 0)], 3⟩)]⟩
+
+example : LabelsOk bowtie := by
+  simp only [LabelsOk, Automated.Simple]; decide
+example : Consistent bowtie := by
+  apply consistent_of_bounded <;> decide
+example : ShareAtMostOne bowtie := by
+  apply shareAtMostOne_of_bounded; decide
+example : LabelsOk ring4 := by
+  simp only [LabelsOk, Automated.Simple]; decide
+example : Consistent ring4 := by
+  apply consistent_of_bounded <;> decide
+example : ShareAtMostOne ring4 := by
+  apply shareAtMostOne_of_bounded; decide
+
+/-- one sweep at `φ = 1/2` on the bow-tie -/
+example : theoretical bowtie 1 (1/2) = some (1/8) := by decide +kernel
+/-- the messages after that sweep (in-place updates: the later ones already see the earlier ones) -/
+example : finalH bowtie 1 (1/2 : Rat) (1/2)
+    = [((0, 0), 11/16), ((1, 0), 11/16), ((2, 0), 1), ((2, 1), 1), ((3, 1), 1), ((4, 1), 1)] := by
+  decide +kernel
+/-- no sweep: the uniform start `1/2` is returned (`zero_at_zero` needs `1 ≤ iterations`) -/
+example : theoretical bowtie 0 0 = some (11/20) := by decide +kernel
+example : theoretical bowtie 1 0 = some 0 := by decide +kernel
+/-- the 4-cycle of edge motifs, two sweeps, at two probabilities (instances of `range` and `monotone`) -/
+example : theoretical ring4 2 (1/2) = some (411/4096) := by decide +kernel
+example : theoretical ring4 2 (3/4) = some (2576385/8388608) := by decide +kernel
+/-- the empty network: Python divides by zero -/
+example : theoretical ⟨[], []⟩ 25 (1/2) = none := by decide +kernel
+/-- the other motifs of the shared vertex `2`, seen from triangle `A`, are `{B}` -/
+example (H : HMap Rat) :
+    prodOver bowtie H 2 ((neighbours bowtie 2).filter fun l => l ∉ triA.verts) [] 1 = readH H (2, 1) := by
+  have := neighbour_product_is_other_motifs (net := bowtie) (by apply consistent_of_bounded <;> decide)
+    (by simp only [LabelsOk, Automated.Simple]; decide) (by apply shareAtMostOne_of_bounded; decide) H
+    (e := (0, 1, triA)) (by decide) (j := 2) (by decide)
+  rw [this]
+  have hs : (motifIdsAt bowtie 2).toFinset.erase triA.id = {1} := by decide
+  rw [show ((0, 1, triA) : Nat × Nat × Label).2.2.id = triA.id from rfl, hs, Finset.prod_singleton]
+
 end Gcmpy.MessagePassing
+
+#print axioms Gcmpy.MessagePassing.motifNodes_wf
+#print axioms Gcmpy.MessagePassing.message_is_expectation
+#print axioms Gcmpy.MessagePassing.range
+#print axioms Gcmpy.MessagePassing.monotone
+#print axioms Gcmpy.MessagePassing.zero_at_zero
+#print axioms Gcmpy.MessagePassing.theoretical_formula
+#print axioms Gcmpy.MessagePassing.fixed_point_stable
+#print axioms Gcmpy.MessagePassing.history_independent
+#print axioms Gcmpy.MessagePassing.neighbour_product_is_other_motifs
